@@ -17,7 +17,8 @@ A labelled transition system with one action per access the real threads make to
 * rx thread `__rxthread`
     `rxCleanPop`   `entry = self.cleanup.pop()`
     `rxCleanup`    under the lock: remove the entry from `active_requests` (search by identity) and, if it was
-                   there, take all parked requests out of `pending`
+                   there, take all parked requests out of `pending`; the label says which entry the implementation
+                   popped from `active_requests` (`none`: nothing)
     `rxRead`       `reply = self.io.readline()` returned a line
     `rxMatch`      `decode_msg`; lines consumed by the cache code (`update`, `error_update` of a known parameter)
                    and undecodable lines are dropped; otherwise under the lock:
@@ -148,7 +149,7 @@ inductive Label (α : Type) where
   | rxSetEvent
   | rxRequeue
   | rxCleanPop
-  | rxCleanup (removed : Bool) (took : List Nat)
+  | rxCleanup (removed : Option Nat) (took : List Nat)
   | closeBegin
   | closeTxq
   | closeActive
@@ -200,18 +201,21 @@ def rxMatchF (tbl : List (α × α)) (s : St α) (l : Line α) (found : Option N
       | some (e, act) => takeParked { s with active := act, rxLine := none, rxSet := some (e, l) } took
       | none => takeParked { s with rxLine := none } took
 
-def rxCleanupF (s : St α) (i : Nat) (removed : Bool) (took : List Nat) : St α :=
-  if removed = (findId s.active i).isSome ∧ took = expectTake s removed then
-    if removed then
-      match findId s.active i with
-      | some k => { s with rxClean := none, active := eraseKey s.active k,
-                           rxHold := s.rxHold ++ s.pending, pending := [] }
-      | none => { s with rxClean := none }
-    else { s with rxClean := none }
+/-- what the clean-up of the timed-out request `i` pops from `active_requests`: that very request, if it is filed -/
+def expectRemoved (s : St α) (i : Nat) : Option Nat := if (findId s.active i).isSome then some i else none
+
+def rxCleanupF (s : St α) (i : Nat) (removed : Option Nat) (took : List Nat) : St α :=
+  if removed = expectRemoved s i ∧ took = expectTake s removed.isSome then
+    match findId s.active i with
+    | some k => { s with rxClean := none, active := eraseKey s.active k,
+                         rxHold := s.rxHold ++ s.pending, pending := [] }
+    | none => { s with rxClean := none }
   else
-    match popId s.active i with
-    | some (_, act) => if removed then takeParked { s with rxClean := none, active := act } took
-                       else takeParked { s with rxClean := none } took
+    match removed with
+    | some j =>
+      match popId s.active j with
+      | some (_, act) => takeParked { s with rxClean := none, active := act } took
+      | none => takeParked { s with rxClean := none } took
     | none => takeParked { s with rxClean := none } took
 
 /-- apply the observed effect of one action (total; a label that does not fit the state leaves it unchanged) -/
@@ -299,7 +303,7 @@ def enabled (tbl : List (α × α)) (locked : Bool) (s : St α) : Label α → B
   | .rxCleanPop => s.rxClean.isNone && s.rxLine.isNone && s.rxSet.isNone && s.rxHold.isEmpty && !s.cleanup.isEmpty
   | .rxCleanup removed took =>
     match s.rxClean with
-    | some i => lockFree locked s && (removed == (findId s.active i).isSome) && (took == expectTake s removed)
+    | some i => lockFree locked s && (removed == expectRemoved s i) && (took == expectTake s removed.isSome)
     | none => false
   | .closeBegin => true
   | .closeTxq => s.closing && !s.txq.isEmpty
